@@ -68,21 +68,27 @@ theorem sample_short (l : List (Stop P C)) (p : P) (mix : C → C → P → C) (
 below the position and the right one at or above it, at the clamped local fraction. -/
 theorem sample_some (l : List (Stop P C)) (p : P) (mix : C → C → P → C) (c : C)
     (h : sampleScale l p mix = some c) :
-    ∃ a ∈ l, ∃ b ∈ l, a.2 ≤ p ∧ p ≤ b.2 ∧ c = mix a.1 b.1 (fraction ((p - a.2) / (b.2 - a.2))) := by
+    ∃ a ∈ l, ∃ b ∈ l, a.2 ≤ p ∧ p ≤ b.2 ∧
+      ((feq a.2 b.2 = true ∧ c = a.1) ∨
+       (feq a.2 b.2 = false ∧ c = mix a.1 b.1 (fraction ((p - a.2) / (b.2 - a.2))))) := by
   unfold sampleScale at h
   split at h
   · cases h
   · simp only [] at h
     split at h
     · next a b ha hb =>
-      simp only [Option.some.injEq] at h
       have ha' := List.find?_some ha
       have hb' := List.find?_some hb
       have hma : a ∈ l := by
         have := List.mem_of_find?_eq_some ha
         exact List.mem_reverse.mp this
       have hmb : b ∈ l := List.mem_of_find?_eq_some hb
-      exact ⟨a, hma, b, hmb, by simpa using ha', by simpa using hb', h.symm⟩
+      refine ⟨a, hma, b, hmb, by simpa using ha', by simpa using hb', ?_⟩
+      cases hq : feq a.2 b.2
+      · simp only [hq, Bool.false_eq_true, if_false, Option.some.injEq] at h
+        exact Or.inr ⟨rfl, h.symm⟩
+      · simp only [hq, if_true, Option.some.injEq] at h
+        exact Or.inl ⟨rfl, h.symm⟩
     · cases h
 
 /-- Outside the span of the stops (below the first / above the last position of a sorted
@@ -184,38 +190,40 @@ position and the nearest stop at or above it. -/
 theorem sample_neighbours (l : List (Stop P C)) (hs : SortedStops l) (p : P) (mix : C → C → P → C) (c : C)
     (h : sampleScale l p mix = some c) :
     ∃ a ∈ l, ∃ b ∈ l, a.2 ≤ p ∧ p ≤ b.2 ∧ (∀ s ∈ l, s.2 ≤ p → s.2 ≤ a.2) ∧ (∀ s ∈ l, p ≤ s.2 → b.2 ≤ s.2) ∧
-      c = mix a.1 b.1 (fraction ((p - a.2) / (b.2 - a.2))) := by
+      ((feq a.2 b.2 = true ∧ c = a.1) ∨
+       (feq a.2 b.2 = false ∧ c = mix a.1 b.1 (fraction ((p - a.2) / (b.2 - a.2))))) := by
   unfold sampleScale at h
   split at h
   · cases h
   · simp only [] at h
     split at h
     · next a b ha hb =>
-      simp only [Option.some.injEq] at h
       have ha' := List.find?_some ha
       have hb' := List.find?_some hb
       have hma : a ∈ l := List.mem_reverse.mp (List.mem_of_find?_eq_some ha)
       have hmb : b ∈ l := List.mem_of_find?_eq_some hb
-      exact ⟨a, hma, b, hmb, by simpa using ha', by simpa using hb',
-        find_greatest l p a hs ha, find_least l p b hs hb, h.symm⟩
+      refine ⟨a, hma, b, hmb, by simpa using ha', by simpa using hb',
+        find_greatest l p a hs ha, find_least l p b hs hb, ?_⟩
+      cases hq : feq a.2 b.2
+      · simp only [hq, Bool.false_eq_true, if_false, Option.some.injEq] at h
+        exact Or.inr ⟨rfl, h.symm⟩
+      · simp only [hq, if_true, Option.some.injEq] at h
+        exact Or.inl ⟨rfl, h.symm⟩
     · cases h
 
-/-- **At a stop's own position** both neighbours are that stop: the sample is `mix` of the stop's
-colour with itself (which C07 shows to be that colour). -/
+/-- **At a stop's own position the sample is that stop's colour, exactly** (both neighbours are
+that stop; since the fix f892f2c the colour is returned as it is, not mixed with itself). -/
 theorem sample_at_stop (l : List (Stop P C)) (hs : SortedStops l) (s : Stop P C) (hsl : s ∈ l)
-    (mix : C → C → P → C) (c : C) (h : sampleScale l s.2 mix = some c) :
-    ∃ f : P, c = mix s.1 s.1 f := by
+    (mix : C → C → P → C) (c : C) (h : sampleScale l s.2 mix = some c) : c = s.1 := by
   obtain ⟨a, ha, b, hb, h1, h2, h3, h4, hc⟩ := sample_neighbours l hs s.2 mix c h
   have hn : isNaN s.2 = false := (not_nan_of_le h1).2
   have eqpos : ∀ x ∈ l, x.2 ≤ s.2 → s.2 ≤ x.2 → x = s := by
     intro x hx hx1 hx2
-    have hfe := le_antisymm_feq hx1 hx2
-    -- two members of a strictly sorted list with IEEE-equal positions coincide
     by_contra hne
     have : x.2 < s.2 ∨ s.2 < x.2 := by
       have hp := hs
       unfold SortedStops at hp
-      rcases List.pairwise_iff_getElem.mp hp |> fun _ => (List.Pairwise.forall_of_forall_of_flip
+      rcases (List.Pairwise.forall_of_forall_of_flip
         (R := fun a b : Stop P C => a ≠ b → (a.2 < b.2 ∨ b.2 < a.2))
         (by intro a _ h; exact absurd rfl h)
         (hp.imp (fun h _ => Or.inl h))
@@ -227,7 +235,11 @@ theorem sample_at_stop (l : List (Stop P C)) (hs : SortedStops l) (s : Stop P C)
     · exact not_lt_of_le hx1 h
   have ea : a = s := eqpos a ha h1 (h3 s hsl (le_refl hn))
   have eb : b = s := eqpos b hb (h4 s hsl (le_refl hn)) h2
-  exact ⟨_, by rw [hc, ea, eb]⟩
+  subst ea
+  subst eb
+  rcases hc with ⟨_, hc⟩ | ⟨hq, _⟩
+  · exact hc
+  · rw [feq_refl hn] at hq; cases hq
 
 /-- The same invariant for IEEE float positions. -/
 theorem float_reachable_sorted {C : Type} (ops : List (C × Float)) :
